@@ -323,8 +323,15 @@ impl Script {
 
 /// Seeded script: up to `max_frames` frames; sizes steered onto buffer growth steps.
 pub fn gen_script(t: &mut Tape, max_frames: usize) -> Script {
+    // Scale swarm: most runs stay small (they find most bugs and shrink well); one in sixteen is
+    // long (dozens to hundreds of frames on one connection) and one in sixteen carries frames of
+    // tens of kilobytes (sizes around 2^15, 2^16 and beyond, and hundreds of growth steps), so
+    // that nothing silently depends on counts or sizes staying small.
+    let scale = t.draw(16);
+    let max_frames = if scale == 15 { 40 + t.draw(260) } else { max_frames };
+    let big = scale == 14;
     let n = 1 + t.draw(max_frames);
-    let size_style = t.draw(4); // 0 tiny, 1 around a growth step, 2 medium random, 3 mixed
+    let size_style = if scale == 15 { [0, 1, 3][t.draw(3)] } else { t.draw(4) }; // 0 tiny, 1 around a growth step, 2 medium random, 3 mixed
     let mut kinds = Vec::new();
     let mut frames = Vec::new();
     let mut offset = 0usize;
@@ -343,6 +350,16 @@ pub fn gen_script(t: &mut Tape, max_frames: usize) -> Script {
                 want.saturating_sub(offset + base)
             }
             _ => t.draw(600),
+        };
+        let padlen = if big && t.draw(3) == 0 {
+            match t.draw(4) {
+                0 => 32_768 - 80 + t.draw(160),
+                1 => 65_536 - 80 + t.draw(160),
+                2 => 256 * (40 + t.draw(300)) - 70 + t.draw(140),
+                _ => 1_000 + t.draw(90_000),
+            }
+        } else {
+            padlen
         };
         let f = gen_frame(t, kind, class, padlen);
         debug_assert!(!f.is_empty() && !f.contains(&0));
